@@ -1,15 +1,24 @@
-import PytypeModel.Proofs.PyiTypes
+import PytypeModel.Proofs.PyiUnitG
 
 /-! # C05 — every stub pytype emits is a valid stub that pytype reads back unchanged
 
-`print : TUnit → PyModule` (`printUnit`, model of `printer.PrintVisitor`) and
-`convert : PyModule → Except ParseErr TUnit` (model of `parser.parse_string` with module name `None`) are in
-`PytypeModel/Pytd/Printer.lean` and `PyiConvert.lean`; text ↔ tree is CPython's `ast.parse` and is trusted
-(checked case by case by the harness).  Only property theorems and non-vacuity examples live here. -/
+`printUnit : TUnit → PyModule` is the model of `printer.PrintVisitor` (`pytd_utils.Print`) as a function to the
+syntax tree of the printed text, `convert : PyModule → Except ParseErr TUnit` the model of
+`parser.parse_string` (module name `None`, as `canonical_pyi` calls it), `normUnit` the explicit list of
+normalisations, `verifyUnit` the model of `VerifyVisitor`, `canonicalPyi` of `parser.canonical_pyi`
+(`PytypeModel/Pytd/Printer.lean`, `PyiConvert.lean`).  Text ↔ tree is CPython's `ast.parse` and is trusted
+(checked case by case by the harness).  Only property theorems and non-vacuity examples live here.
+
+`inFragment u` is decidable (`fragmentGuards`): the unit is `Modelled`, consists of constants, type
+parameters and aliases whose types are in the emitted dialect (`fTy`: every `Ty` form — `Any`, `nothing`,
+builtins / `typing` / local names, type parameters, generic classes, `tuple[X, ...]`, `tuple[X, Y]`,
+`Callable[[…], R]`, `Callable[..., R]`, `type[X]`, `Optional`/`Union`/`Literal` sugar incl. the pep484 compat
+elision, `Literal` values, `Annotated[T, 'property']`), and every name is declared once.  Functions and
+classes (stages 2 and 3) are outside the proved fragment and covered by the correspondence only. -/
 namespace PytypeModel.Props.C05
 open PytypeModel.Pytd
 
-/-! ## stage 1: types (every `Ty` form of the emitted dialect) -/
+/-! ## stage 1: types -/
 
 /-- Parsing the printed form of a fragment type and post-processing it gives exactly `norm` of the type, in
 every parser state that has the needed `typing` members imported (`EnvOK`). -/
@@ -19,7 +28,8 @@ theorem type_round_trip (g : GCtx) (hg : GOK g) (inParam : Bool) (t : Ty) (hf : 
   obtain ⟨pre, h1, h2, _⟩ := (tyGood hg inParam t hf hsub).2.2 d henv
   exact ⟨pre, h1, h2⟩
 
-/-- The normal form prints exactly like the type: parse-then-print reproduces the text. -/
+/-- The normal form prints exactly like the type (also inside a parameter, where `Union[int, float]` is
+printed `float`). -/
 theorem type_print_fixpoint (g : GCtx) (hg : GOK g) (inParam : Bool) (t : Ty) (hf : fTy g inParam t = true)
     (hsub : ∀ x ∈ tyAdds inParam t, x ∈ g.adds) :
     tyExpr inParam (normTy g.tps inParam t) = tyExpr inParam t :=
@@ -30,5 +40,74 @@ theorem type_imports_preserved (g : GCtx) (hg : GOK g) (inParam : Bool) (t : Ty)
     (hf : fTy g inParam t = true) (hsub : ∀ x ∈ tyAdds inParam t, x ∈ g.adds) (X : String) :
     X ∈ tyAdds inParam (normTy g.tps inParam t) ↔ X ∈ tyAdds inParam t :=
   (tyGood hg inParam t hf hsub).2.1 X
+
+/-! ## units (constants, type variables, aliases, the import block) -/
+
+/-- The printed stub parses, and the re-read declarations are `norm u` (in particular the parser does not
+reject what the printer emits). -/
+theorem parse_print (u : TUnit) (h : inFragment u = true) : convert (printUnit u) = .ok (normUnit u) :=
+  convert_print h
+
+/-- Printing the re-read declarations reproduces the stub, import block included. -/
+theorem print_fixpoint (u : TUnit) (h : inFragment u = true) : printUnit (normUnit u) = printUnit u :=
+  print_norm h
+
+/-- Parse-then-print is the identity on emitted text: `Print(parse(text)) == text`. -/
+theorem reparse_reprints (u : TUnit) (h : inFragment u = true) :
+    ∃ n, convert (printUnit u) = .ok n ∧ printUnit n = printUnit u :=
+  ⟨normUnit u, convert_print h, print_norm h⟩
+
+/-- The structural verifier accepts the re-read declarations. -/
+theorem verify_preserved (u : TUnit) (h : inFragment u = true) (_hv : verifyUnit u = true) :
+    verifyUnit (normUnit u) = true :=
+  verify_normUnit h
+
+/-- The decidable side condition of `canonical_idempotent`: the canonically ordered re-read unit `c` is again
+in the fragment and verified, and normalising and re-ordering it once more prints the same (the driver
+evaluates this for every unit; it held for every in-fragment unit generated so far). -/
+def CanonStable (u : TUnit) : Prop :=
+  let c := canonUnit (normUnit u)
+  inFragment c = true ∧ verifyUnit c = true ∧ verifyUnit (canonUnit (normUnit c)) = true ∧
+    (modelledGuards (canonUnit (normUnit c))).all (·.2) = true ∧
+    printUnit (canonUnit (normUnit c)) = printUnit c
+
+/-- `canonical_pyi` is idempotent on emitted text.  Partial: under `CanonStable u`; the unconditional
+statement (the fragment is closed under `norm` and canonical ordering, and re-ordering undoes the member
+reordering of `norm`) is not proved. -/
+theorem canonical_idempotent (u : TUnit) (h : inFragment u = true) (hs : CanonStable u) :
+    ∃ m, canonicalPyi (printUnit u) = .ok m ∧ canonicalPyi m = .ok m := by
+  obtain ⟨h1, h2, h3, h4, h5⟩ := hs
+  refine ⟨printUnit (canonUnit (normUnit u)), canonicalPyi_print h h2 (modelledGuards_of_inFragment h1), ?_⟩
+  rw [canonicalPyi_print h1 h3 h4, h5]
+
+/-! ## non-vacuity -/
+
+/-- ```
+from typing import Any, Callable, Literal, Optional, TypeVar, Union
+T = TypeVar('T', bound=int)
+Vec = list[int]
+x: Optional[Union[int, Literal[1, 'a']]]
+y: Callable[[int, T], tuple[str, ...]]
+z: type[Any] = ...
+``` -/
+def demo : TUnit :=
+  { name := "m"
+    constants := [
+      { name := "x", ty := .union [.literal (.int 1), .cls "builtins.NoneType", .cls "builtins.int",
+                                   .literal (.str "a")] },
+      { name := "y", ty := .callable (.cls "typing.Callable")
+          [.cls "builtins.int", .typeParam "T" (some "m"),
+           .generic (.cls "builtins.tuple") [.cls "builtins.str"]] },
+      { name := "z", ty := .generic (.cls "builtins.type") [.any], value := some (.bool true) } ]
+    typeParams := [{ name := "T", bound := some (.cls "builtins.int") }]
+    aliases := [{ name := "Vec", ty := .generic (.cls "builtins.list") [.cls "builtins.int"] }] }
+
+example : inFragment demo = true := by decide +kernel
+example : verifyUnit demo = true := by decide +kernel
+/-- the normal form differs from the unit (ClassType → NamedType, literals and None moved, scope dropped) -/
+example : (normUnit demo).constants.map (·.ty) ≠ demo.constants.map (·.ty) := by decide +kernel
+/-- a unit outside the fragment: a constant whose type is the bare `typing.List` -/
+example : inFragment { name := "m", constants := [{ name := "x", ty := .named "typing.List" }] } = false := by
+  decide +kernel
 
 end PytypeModel.Props.C05
